@@ -374,6 +374,9 @@ func (k c18) Run(c *mon.Ctx, workload string, i int64) {
 		c.Violate(cl, fmt.Sprintf("%s\n--- program (v2)\n%s", r.Detail, src), info)
 		return
 	}
+	if !againV2(c, script, name, src, mo, true, "", info) {
+		return
+	}
 	// differential run on v1 where the languages coincide
 	// (an undefined name is an error on v2 and reads nil on v1: the languages
 	// do not coincide for such programs)
